@@ -47,7 +47,7 @@ REQUIRED_PROBES = {"quick": ["observer_before_last_mutation", "raw_value_object_
                              "caseless_duplicate_name", "permutation_moved_something", "amz_in_history",
                              "amz_added_two_or_more", "subtree_from_ical", "zoned_dateutil", "zoned_pytz",
                              "zoned_zoneinfo", "list_valued_parameter", "setter_barrier", "noise_parse", "noise_serialise",
-                             "mixed_zone_list", "constructed_from_mapping", "params_mutated_in_place", "property_deleted", "value_payload_mutated_in_place"]}
+                             "mixed_zone_list", "constructed_from_mapping", "tzid_parameter_popped", "params_mutated_in_place", "property_deleted", "value_payload_mutated_in_place"]}
 REQUIRED_PROBES["thorough"] = REQUIRED_PROBES["quick"]
 
 KINDS = ["VEVENT", "VTODO", "VJOURNAL", "VFREEBUSY", "VTIMEZONE", "VALARM", "X-COMP"]
@@ -58,7 +58,9 @@ CHILD_KINDS = {"VCALENDAR": ["VEVENT", "VEVENT", "VTODO", "VJOURNAL", "VFREEBUSY
 
 ZONES = [["zi", "Europe/Berlin"], ["zi", "America/New_York"], ["pytz", "Europe/Vienna"], ["pytz", "Asia/Tokyo"],
          ["du", "Europe/London"], ["du", "Australia/Sydney"], ["zi", "Asia/Kolkata"], ["zi", "Pacific/Fiji"],
-         ["pytz", "America/Sao_Paulo"]]
+         ["pytz", "America/Sao_Paulo"],
+         # zones no table knows: the TZID written is the name the zone gives itself for that very date-time
+         ["fixed", 345, "KST"], ["fixed", 345, "KDT"], ["fixed", 90], ["fixed", -210, "X-NT"], ["simdst"], ["simdst"]]
 # strings that occur both as TEXT and as URI / CAL-ADDRESS values (the value classes are all str subclasses that
 # compare equal for equal text but render differently)
 COLLIDE = ["http://example.com/a,b;c", "mailto:x,y;z@example.com", "with, comma; semi", "back\\slash,and;semi"]
@@ -232,6 +234,7 @@ def generate(rng, cfg):
     nid = 1
     nsteps = rng.randint(6, cfg.get("max_steps", 40))
     marker = 0
+    zoned = set()        # (component, NAME) of date-time values that carry a zone
     used_amz = False
     swarm = {"setters": rng.random() < 0.6, "raw": rng.random() < 0.6, "amz": rng.random() < 0.5,
              "from_ical": rng.random() < 0.4, "noise": rng.random() < 0.5, "setitem": rng.random() < 0.5,
@@ -294,6 +297,12 @@ def generate(rng, cfg):
         if r < 0.46 and swarm["mutate"]:
             # mutation routes other than add(): edit a stored value's parameters in place, delete a property
             cands = [k for k in sorted(comps) if comps[k] != "PARSED" and names_used.get(k)]
+            zoned_now = sorted((k, n) for k, n in zoned if n in names_used.get(k, {}))
+            if zoned_now and rng.random() < 0.3:
+                # "make it floating": the TZID parameter of a zoned value is removed - it must not come back
+                c, U = rng.choice(zoned_now)
+                trace.append([0, "mutate_params", {"comp": c, "name": U, "param": "TZID", "v": "", "how": "pop-tzid"}])
+                continue
             if cands:
                 c = rng.choice(cands)
                 U = rng.choice(sorted(names_used[c]))
@@ -302,7 +311,8 @@ def generate(rng, cfg):
                 elif rng.random() < 0.6:
                     trace.append([0, "mutate_params", {"comp": c, "name": U, "param": f"X-MUT{len(trace)}",
                                                        "v": f"v{len(trace)}",
-                                                       "how": rng.choice(["set", "set", "pop", "append-list", "pop-last"])}])
+                                                       "how": rng.choice(["set", "set", "pop", "append-list", "pop-last", "pop-tzid",
+                                                                          "pop-tzid"])}])
                 else:
                     trace.append([0, "del_prop", {"comp": c, "name": rng.choice([U, U.lower(), U.title()]),
                                                   "how": rng.choice(["pop", "delitem"])}])
@@ -332,6 +342,8 @@ def generate(rng, cfg):
         if rng.random() < 0.45:
             for p in rng.sample(PARAM_MENU, rng.randint(1, 4)):
                 params.append(p)
+        if vk.startswith(("dt:", "dtlist:")) and vk.split(":")[1] not in ("floating", "utc"):
+            zoned.add((c, U))
         step = {"comp": c, "name": name, "v": v, "vk": vk, "params": params}
         base = vk.split(":")[0]
         if base == "rawonly":
@@ -608,6 +620,10 @@ def run_variant(trace, res, with_observers, tag, stepbase=0, checks=True):
                 elif how == "pop-last" and keys:
                     # not popitem(): which item is last depends on the insertion order that permutations vary
                     value.params.pop(keys[-1].lower())
+                elif how == "pop-tzid":
+                    value.params.pop("TZID", None)             # "make it floating": the zone must not come back
+                    if checks and "TZID" in keys:
+                        res.probe("tzid_parameter_popped")
                 elif how == "append-list":
                     lists = [k for k in keys if isinstance(value.params[k], list)]
                     if lists:
@@ -925,10 +941,13 @@ def _check_wire(res, stepno, bs, bu, B):
                     wire_names.append(n)
             if not m["parsed"]:
                 keys = list(m["names"].keys())
-                want = canon(keys, canon_of.get(m["kind"])) if sorted_flag else keys
-                if wire_names != want:
+                # sorted=False: exactly the order of first insertion.  sorted=True: *which* order the library sorts
+                # into is C17's statement, not C10's (here it only has to be the same for every insertion order and
+                # in every process - the permuted variants and the incarnations decide that); the names must all be
+                # there, once.
+                if (wire_names != keys) if not sorted_flag else (sorted(wire_names) != sorted(keys)):
                     res.violate("C10/property-order/" + ("sorted" if sorted_flag else "insertion"), stepno,
-                                f"component {cid} ({m['kind']}): wire {wire_names!r} want {want!r}")
+                                f"component {cid} ({m['kind']}): wire {wire_names!r} inserted {keys!r}")
                 # entries of list-valued properties in the order given
                 for U, texts in m.get("lists", {}).items():
                     if texts is None:
